@@ -1,4 +1,4 @@
-import Httpcache.Driver.Monitors
+import Httpcache.Driver.Monitors2
 open Httpcache Httpcache.Driver
 
 /-- per-exchange outcome tag for the distribution report -/
@@ -27,7 +27,7 @@ partial def loop (prop : String) (stdin : IO.FS.Stream) (h : Hist) (inHash : UIn
   let line := (line.dropEndWhile (· == '\n')).toString
   if line.startsWith "E\t" then
     let h := h.finish
-    let mon := monitorFor prop h
+    let mon := monitorFor2 prop h
     let corr := checkHistory h
     IO.println s!"STAT\t{h.id}\t{h.cls}\t{inHash}\t{if nontrivial h then 1 else 0}\t{signature h}"
     match mon with
